@@ -30,14 +30,32 @@ type c04Case struct {
 	Binds     hx.Bindings `json:"binds"`
 	Ops       [][]c04Op   `json:"ops"` // one list per goroutine
 	Procs     int         `json:"procs,omitempty"`
+	Delims    []string    `json:"delims,omitempty"` // Engine.Delims configuration (empty strings = defaults), nil = not called
+	Cold      bool        `json:"cold,omitempty"`   // the shared engine does nothing before the goroutines start: each goroutine parses what it renders
 }
 
 const c04Included = "[inc {{ n }}{% for q in a %}{% cycle 'x', 'y' %}{% endfor %}]"
 
 // c04Run executes the case; it returns the first result that differs from the sequential one.
-func c04Run(c *c04Case) *hx.Violation {
+func c04Engine(c *c04Case) (*liquid.Engine, error) {
 	eng := newEngine(nil)
-	if _, err := eng.ParseTemplateAndCache([]byte(c04Included), "inc.html", 1); err != nil {
+	if len(c.Delims) == 4 {
+		eng.Delims(c.Delims[0], c.Delims[1], c.Delims[2], c.Delims[3])
+	}
+	if !c.Cold {
+		if _, err := eng.ParseTemplateAndCache([]byte(c04Included), "inc.html", 1); err != nil {
+			return nil, err
+		}
+	}
+	return eng, nil
+}
+
+func c04Run(c *c04Case) *hx.Violation {
+	if c.Cold {
+		return c04RunCold(c)
+	}
+	eng, err := c04Engine(c)
+	if err != nil {
 		return hx.V("harness-error", "%v", err)
 	}
 	// configuration ends here; from now on the engine is only used
@@ -99,6 +117,59 @@ func c04Run(c *c04Case) *hx.Violation {
 					mu.Lock()
 					if bad == nil {
 						bad = hx.V("c04:differs-from-sequential", "goroutine %d: %+v on %q returned %s; run alone it returns %s", g, op, c.Templates[op.K], trunc(got, 300), trunc(want[op], 300))
+					}
+					mu.Unlock()
+				}
+			}
+		}(g, ops)
+	}
+	close(start)
+	wg.Wait()
+	return bad
+}
+
+// c04RunCold: the configured engine is used for the first time by the goroutines themselves.
+// The reference results come from a second engine configured identically and used sequentially.
+func c04RunCold(c *c04Case) *hx.Violation {
+	ref, err := c04Engine(c)
+	if err != nil {
+		return hx.V("harness-error", "%v", err)
+	}
+	eng, _ := c04Engine(c)
+	env := c.Binds.Realise()
+	one := func(e *liquid.Engine, k int) (res string) {
+		if pi := hx.Guard(func() {
+			t, err := e.ParseString(c.Templates[k])
+			if err != nil {
+				res = resultString("", err)
+				return
+			}
+			out, rerr := t.RenderString(env)
+			res = resultString(out, errOrNil(rerr))
+		}); pi != nil {
+			res = "PANIC " + pi.String()
+		}
+		return
+	}
+	want := make([]string, len(c.Templates))
+	for k := range c.Templates {
+		want[k] = one(ref, k)
+	}
+	var wg sync.WaitGroup
+	start := make(chan struct{})
+	var mu sync.Mutex
+	var bad *hx.Violation
+	for g, ops := range c.Ops {
+		wg.Add(1)
+		go func(g int, ops []c04Op) {
+			defer wg.Done()
+			<-start
+			for _, op := range ops {
+				k := op.K % len(c.Templates)
+				if got := one(eng, k); got != want[k] {
+					mu.Lock()
+					if bad == nil {
+						bad = hx.V("c04:differs-from-sequential", "goroutine %d: parse+render of %q on a freshly configured engine returned %s; on an equally configured engine used alone it returns %s", g, c.Templates[k], trunc(got, 300), trunc(want[k], 300))
 					}
 					mu.Unlock()
 				}
@@ -208,7 +279,7 @@ func TestC04(t *testing.T) {
 
 	prof := hx.FullProfile()
 	prof.Tablerow, prof.MaxNodes = true, 10
-	total := env.PerShard(env.Pick(4000, 80000))
+	total := env.PerShard(env.Pick(12000, 120000))
 	var cases []*c04Case
 	col.Rapid(chk.Sub, total, func(t *rapid.T) {
 		size := 1 + (len(cases)*8)/total // 1..8
@@ -244,6 +315,22 @@ func TestC04(t *testing.T) {
 				ops = append(ops, c04Op{Parse: rapid.IntRange(0, 4).Draw(t, "parse") == 0, K: rapid.IntRange(0, nt-1).Draw(t, "k")})
 			}
 			c.Ops = append(c.Ops, ops)
+		}
+		// engine configuration: Delims with empty strings selects the defaults, so the templates stay valid
+		switch rapid.IntRange(0, 5).Draw(t, "delims") {
+		case 0:
+			c.Delims = []string{"", "", "", ""}
+		case 1:
+			c.Delims = []string{"{{", "}}", "", ""}
+		case 2:
+			c.Delims = []string{"", "}}", "{%", ""}
+		}
+		c.Cold = rapid.IntRange(0, 3).Draw(t, "cold") == 0
+		if c.Cold {
+			// the cached include is registered by configuration-time parsing, which a cold engine has not done
+			for i := range c.Templates {
+				c.Templates[i] = strings.ReplaceAll(c.Templates[i], "{% include 'inc.html' %}", "")
+			}
 		}
 		cases = append(cases, c)
 	})
